@@ -861,6 +861,12 @@ func (m *ProposalPOLMessage) ValidateBasic() error {
 	if m.ProposalPOL.Size() == 0 {
 		return ErrEmptyProposalPOL
 	}
+	if m.ProposalPOL.Size() > types.MaxVotesCount {
+		return fmt.Errorf("ProposalPOL bit array is too big: %d, max: %d", m.ProposalPOL.Size(), types.MaxVotesCount)
+	}
+	if err := m.ProposalPOL.ValidateBasic(); err != nil {
+		return fmt.Errorf("wrong ProposalPOL: %v", err)
+	}
 	return nil
 }
 
@@ -972,6 +978,9 @@ func (m *VoteSetBitsMessage) ValidateBasic() error {
 	// NOTE: Votes.Size() can be zero if the node does not have any
 	if m.Votes.Size() > types.MaxVotesCount {
 		return fmt.Errorf("votes bit array is too big: %d, max: %d", m.Votes.Size(), types.MaxVotesCount)
+	}
+	if err := m.Votes.ValidateBasic(); err != nil {
+		return fmt.Errorf("wrong Votes: %v", err)
 	}
 	return nil
 }
@@ -1408,6 +1417,9 @@ func (m *NewValidBlockMessage) ValidateBasic() error {
 	}
 	if m.BlockParts.Size() > types.MaxBlockPartsCount {
 		return fmt.Errorf("BlockParts bit array is too big: %d, max: %d", m.BlockParts.Size(), types.MaxBlockPartsCount)
+	}
+	if err := m.BlockParts.ValidateBasic(); err != nil {
+		return fmt.Errorf("wrong BlockParts: %v", err)
 	}
 	return nil
 }
